@@ -32,6 +32,11 @@ CHECKS["C19"] = ("exploration",
   "All parenthesisation decisions at depth 2 are enumerated; generated trees to depth 5 and the four query kinds with nested joins. Oracle: harness reader built from the precedence ladder of the property + reference evaluator on 49/343 assignments + column/literal multisets + structural comparison of queries; second reader = examples/msiquery.pest on parenthesis-free texts.",
   "Trusted: the harness reader and reference evaluator; the pest grammar only as a cross-check of the reader (it has no ^ operator and is exponential on nested parentheses).",
   "DESIGN.md section 4, C19")
+CHECKS["C07"] = ("exploration",
+  "bounded-exhaustive strings per category over adversarial alphabets + category-shaped and proptest-generated strings against reference grammars; enumerated (column kind, range, value) grid for is_valid_value; generated insert/update gate cases on a real package",
+  "Enumerates all strings up to length 5 (6 in thorough) over ~10 symbols for each of the ten categories with a grammar, shaped boundary strings, and a (type x range x nullable x enumeration x value) grid; generated search for the insert/update gate including arities 0..33 and duplicate keys. Oracle: reference predicates written from the rustdoc of Category and the property text.",
+  "Trusted: the reference grammars in model.rs. Declared don't-care set: leading '+' in integer text, non-ASCII cased letters in Upper/LowerCase, multi-byte characters in the 8.3 part of Cabinet.",
+  "DESIGN.md section 4, C07 and Appendix B")
 NOT_YET = {}
 
 def main():
